@@ -251,6 +251,21 @@ func (st *State) unsafeBuiltin(fn *ssa.Builtin, a []Value) (Value, bool) {
 		return Slice{Arr: Ptr{O: p.O, Path: p.Path[:len(p.Path)-1]}, Off: last.I, Len: n, Cap: n}, true
 	case "Add":
 		p := a[0].(Ptr)
+		if ot := asTerm(st, a[1]); !ot.IsConst() && p.O != nil && len(p.Path) > 0 {
+			// symbolic offset: it can only address elements of the same array
+			lastE := p.Path[len(p.Path)-1]
+			if parr, isArr := st.walk(st.rd(p.O).V, p.Path[:len(p.Path)-1]).(*ArrayV); isArr && lastE.Sym == nil && len(parr.E) > 0 {
+				esz := st.sizeofValue(parr.E[0])
+				if esz > 0 {
+					lo, hi := -int64(lastE.I)*esz, int64(len(parr.E)-lastE.I)*esz
+					if !st.Branch(term.MkAnd(term.MkCmp(term.Sle, i64(lo), ot), term.MkCmp(term.Sle, ot, i64(hi)))) {
+						st.unsupported("unsafe.Add outside the array")
+					}
+					off := st.Concretize(ot, lo, hi)
+					a = []Value{a[0], i64(off)}
+				}
+			}
+		}
 		off := st.asInt(a[1], -1<<30, 1<<30)
 		if off == 0 {
 			return p, true
